@@ -15,9 +15,14 @@ import sys
 import time
 from pathlib import Path
 
-src = Path(sys.argv[1])
-name = sys.argv[2]
-props = sys.argv[3:]
+argv = sys.argv[1:]
+base = None
+if argv[0] == "--base":
+    base = argv[1]
+    argv = argv[2:]
+src = Path(argv[0])
+name = argv[1]
+props = argv[2:]
 ROOT = Path("/verif")
 ALL = [json.loads(l)["id"] for l in (ROOT / "properties.jsonl").read_text().splitlines() if l.strip()]
 have = {c["property_id"] for c in json.loads((ROOT / "MANIFEST.json").read_text())["checks"]}
@@ -36,12 +41,19 @@ def demo():
 
 assert sh("git -C /repo status --porcelain").stdout.strip() == "", "repo not clean"
 meta = json.loads((src / "meta.json").read_text())
+base = base or meta.get("base")
 res = {"ran": time.strftime("%Y-%m-%d %H:%M:%S")}
+if base:
+    # the change was written against an earlier commit of /repo (a later fix touches the same lines)
+    sh(f"git -C /repo checkout {base} -- src")
+    res["base"] = base
+    meta["base"] = base
 rc, out = demo()
 res["demo_clean"] = {"exit": rc, "tail": out}
 ap = sh(f"git -C /repo apply {src}/patch.diff")
 if ap.returncode != 0:
     print("PATCH DOES NOT APPLY", ap.stderr)
+    sh("git -C /repo checkout HEAD -- src")
     sys.exit(3)
 try:
     t = sh("cd /repo && /venv/bin/python -m pytest -q -p no:cacheprovider --no-cov 2>&1 | tail -1")
@@ -58,7 +70,7 @@ try:
         if r.returncode == 2:
             print(r.stderr[-800:])
 finally:
-    sh("git -C /repo checkout -- . && git -C /repo clean -fdq src")
+    sh("git -C /repo checkout HEAD -- src && git -C /repo checkout -- . && git -C /repo clean -fdq src")
     sh("rm -rf /verif/replays/*/found")
     # evidence files were rewritten by runs against the mutant: restore the committed ones
     sh("cd /verif && git checkout -- evidence 2>/dev/null")
